@@ -151,6 +151,42 @@ class _Canon(ast.NodeTransformer):
         return node
 
 
+class _CanonTree(_Canon):
+    """_Canon applied in place to a whole module, keeping source positions"""
+
+    def visit(self, node: ast.AST) -> ast.AST:
+        new = super().visit(node)
+        if new is not node and isinstance(new, ast.AST) and hasattr(node, "lineno"):
+            ast.copy_location(new, node)
+            for ch in ast.walk(new):
+                if not hasattr(ch, "lineno") and isinstance(ch, (ast.expr, ast.stmt)):
+                    ast.copy_location(ch, node)
+        return new
+
+
+    def visit_If(self, node: ast.If) -> ast.AST:
+        node = self.generic_visit(node)  # type: ignore[assignment]
+        assert isinstance(node, ast.If)
+        # an if/else whose test is negative is turned round, so that the polarity a developer happened to choose does not matter;
+        # elif chains keep their order (only the last link of a chain can have a plain else)
+        if node.orelse and not (len(node.orelse) == 1 and isinstance(node.orelse[0], ast.If)):
+            t = node.test
+            pos = None
+            if is_not(t):
+                pos = t.operand  # type: ignore[attr-defined]
+            elif isinstance(t, ast.Compare) and len(t.ops) == 1 and isinstance(t.ops[0], (ast.NotEq, ast.IsNot, ast.NotIn)):
+                pos = ast.Compare(t.left, [_FLIP[type(t.ops[0])]()], t.comparators)
+            if pos is not None:
+                ast.copy_location(pos, t)
+                node.test, node.body, node.orelse = pos, node.orelse, node.body
+        return node
+
+
+def canon_tree(tree: ast.Module) -> ast.Module:
+    out = _CanonTree().visit(tree)
+    return ast.fix_missing_locations(out)
+
+
 def canon(n: ast.expr) -> ast.expr:
     return ast.fix_missing_locations(_Canon().visit(copy.deepcopy(n)))
 
